@@ -281,6 +281,16 @@ theorem merge_cell_apply {S : Schema} (K : KeyOrder S) {o : MergeOpts} {L : List
         simp only [hred, ↓reduceIte, Option.some.injEq] at hcell ⊢
         exact ⟨L, ha1, ha2, rfl, hfin L hgL (fun _ _ _ => rfl) hcell⟩
 
+-- OPEN: `merge_apply_partial` — for good trees and exact diffs `D1` (for `A`, leading to `B`) and `D2` (for `B`, leading to `C`):
+--   ∃ M C', mergeDiff o S D1 D2 = .ok M ∧ apply S A M = .ok C' ∧ dataEqL true C' C = true
+--   (under `o.defaults = true → Generated.Diff13.mergeDfltNeedsDeletedDflt = true`), and `merge_cancel` at tree level
+--   (`mergeDiff o S D (reverse D) = .ok []`).  Proved here: every leaf cell (`merge_cell_*`, `merge_cancel_leaf`), the link to
+--   `applyNode` (`merge_cell_apply`), the unreachability of the rejected cells, and the agreement of the table with the source
+--   (Props/C13.lean).  Not proved: the recursion of `mergeR` through inner nodes (created / deleted subtrees with inherited
+--   operations, `placeBack`, the order of the merged siblings).  Evidence instead: `merge3` agrees with lyd_diff_merge_all token
+--   for token, and the law holds on the implementation for every generated triple outside the F18 cells, including all 7 844
+--   option × triple combinations of the exhaustive tiny state spaces (tools/checks/c13.py).
+
 /-! ### the hypotheses of the cell theorems are satisfiable and the effects are not trivial -/
 
 def cS : Schema := { modName := "cell", nodes := [ { depth := 0, kind := .leaf, name := "f", dflts := [bs "d"] } ] }
